@@ -192,6 +192,46 @@ Section Ctor.
   Definition ctor_labels (pairs : list (K * B)) : list B := map snd pairs.
 End Ctor.
 
+(* FRAME_ELEMENTS: Frame.from_element_items(items, index=, columns=, axis=) (frame.py:1376-1420).  The stream is
+   cut into records wherever the OUTER key (row label for axis 0, column label for axis 1) changes; the values of a
+   record fill one row (column) left to right -- the inner keys are never looked at -- and the records are stacked
+   under the container's own index/columns.  Only the well-shaped case is modelled as success: a stream whose records
+   do not have the container's shape is reported as Err "ShapeMismatch" (not claimed faithful: ragged records). *)
+Section CtorElements.
+  Context {K B : Type}.
+  Variable keqb : K -> K -> bool.
+  Variable outer_of : K * K -> K.     (* axis 0: fst (row label); axis 1: snd (column label) *)
+
+  Fixpoint records_from (cur : K) (acc : list B) (items : list ((K * K) * B)) : list (list B) :=
+    match items with
+    | [] => [rev acc]
+    | (key, v) :: t =>
+        if keqb (outer_of key) cur then records_from cur (v :: acc) t
+        else rev acc :: records_from (outer_of key) [v] t
+    end.
+
+  Definition records (items : list ((K * K) * B)) : res (list (list B)) :=
+    match items with
+    | [] => Err "RuntimeError"                       (* next() on an empty stream inside the generator *)
+    | (key, v) :: t => Ok (records_from (outer_of key) [v] t)
+    end.
+
+  (* the element items of the resulting Frame, outer label by outer label *)
+  Definition relabel (mk_key : K -> K -> K * K) (outer inner : list K) (recs : list (list B)) : list ((K * K) * B) :=
+    flat_map (fun orec => map (fun ib => (mk_key (fst orec) (fst ib), snd ib)) (combine inner (snd orec)))
+             (combine outer recs).
+
+  Definition ctor_elements (mk_key : K -> K -> K * K) (outer inner : list K) (items : list ((K * K) * B))
+    : res (list ((K * K) * B)) :=
+    match records items with
+    | Err e => Err e
+    | Ok recs =>
+        if Nat.eqb (length recs) (length outer) && forallb (fun r => Nat.eqb (length r) (length inner)) recs
+        then Ok (relabel mk_key outer inner recs)
+        else Err "ShapeMismatch"
+    end.
+End CtorElements.
+
 (* ------------------------------------------------------------------ Batch (batch.py:407-561) *)
 Section BatchPool.
   Context {L F R : Type}.
